@@ -222,6 +222,23 @@ def _truncation(col, rule="C16.R4"):
     back = {e.value: e.target for e in isx.of_kind("store") if S.is_attr(e.target, S.SELF) and e.value is not None
             and e.value[:1] not in (("const",), ("param",), ("alt",)) and e.target != S.sattr("sing_val_cutoff")}
     ok = bool(st) and all(S.subst(e.value, back) == S.fcall("len", SV) for e in st)
+    if not st:
+        # the choice made in a helper / a conditional expression: judged by where the stored value came from
+        isnone = ("cmp", "is", cut, ("const", "None"))
+        for e in isx.of_kind("store"):
+            if e.target != S.sattr("sing_val_cutoff"):
+                continue
+            node = isx.cfg.nodes[e.nid].ast
+            val = getattr(node, "value", None)
+            if val is None:
+                continue
+            try:
+                gv = isx.guarded_values(val, e.nid)
+            except Exception:
+                gv = []
+            dflt = [v for v, cs in gv if isnone in cs and v != cut]
+            if dflt:
+                ok = all(S.subst(v, back) == S.fcall("len", SV) for v in dflt)
     col.add(rule, "SVD.__init__#default-cutoff-keeps-all", ok, isx.loc(isx.fn), "by default all singular values are kept", "")
 
 
